@@ -182,7 +182,7 @@ Definition run_search (moved : bool) (l : list Z) : list Z :=
 
 (* marker: what remains of the output is A ++ B, A strictly increasing with every element in the set that follows
    the marker, B a permutation of A (the reported indices, sorted and in callback order) *)
-Definition SUBSET : Z := -13.
+Definition SUBSET : Z := -4611686018427387917.   (* -(2^62) - 13: outside every data range, unlike the small markers *)
 
 Definition spec_search (moved : bool) (l : list Z) : list Z :=
   match l with
@@ -628,7 +628,7 @@ Definition half_ok (rest set : list Z) : bool :=
 Fixpoint zlist_match' (impl sp : list Z) : bool :=   (* spec may hold wildcards; -10 = the rest is free *)
   match impl, sp with
   | _, [-10] => true
-  | _, -13 :: set => half_ok impl set
+  | _, -4611686018427387917 :: set => half_ok impl set
   | [], [] => true
   | x :: a', y :: b' => ((y =? WILD) || (x =? y)) && zlist_match' a' b'
   | _, _ => false
